@@ -357,6 +357,6 @@ func TestC04(t *testing.T) {
 	defer r.Finish()
 	ev.Search(r, ev.Sub[c4Case]{
 		Name: "runs", Gen: genC04, Oracle: oracleC04, NonTrivial: c4NonTrivial, Classes: c4Features,
-		Budget: ev.Budget{Quick: 60, Thorough: 800}, MinNonTrivial: 0.4,
+		Budget: ev.Budget{Quick: 60, Thorough: 400}, MinNonTrivial: 0.4,
 	})
 }
